@@ -172,6 +172,8 @@ def shape_for(rng, gen):
                 t = [rng.choice("ui"), w]
             budget -= w
             fields.append({"name": fn, "id": fi, "type": t})
+            if rng.random() < 0.3:
+                fields[-1]["unit"] = rng.choice(["V", "rpm", "%", "\u00b0C", "\u03a9", "\u00b5s"])     # DBC files carry the unit text
         sname = names.struct()
         decls.append({"kind": "struct", "name": sname, "fields": fields})
         buses = rng.sample(["can1", "can2", None, "chassis/front"], rng.randint(1, 2))     # a bus name may contain '/': the file lands in a sub-directory
@@ -592,10 +594,10 @@ def _execute(sysm, clock, ops, work, tier, probes, tr, distinct):
                     if names:
                         target = names[pick % len(names)]
                         applied = True
-                plug_cfg.append((cat, target, "attempt" if (pick >> (3 + ci)) & 1 else "return"))
+                plug_cfg.append((cat, target, ["return", "attempt", "return", "attempt"][(pick >> (3 + 2 * ci)) & 3]))
             if rej is not None and rej > 0 and applied and cats[rej] in cats[:rej]:
                 probes["simgen_second_check_in_category_rejects"] += 1
-            inj = "plug:" + ",".join(f"{c}{'!' if t else ''}{'^' if t and st == 'attempt' else ''}" for c, t, st in plug_cfg)
+            inj = "plug:" + ",".join(f"{c}{'!' if t else ''}{'^' if t and st == 'attempt' else '0' if t and st == 'falsy' else ''}" for c, t, st in plug_cfg)
             if any(t and st == "attempt" for c, t, st in plug_cfg):
                 probes["simgen_check_rejects_by_attempt"] += 1
         elif inj:
